@@ -267,10 +267,9 @@ impl Kademlia {
                                 "connection established to peer but failed to open substream",
                             );
 
-                            if let PeerAction::SendFindNode(query_id) = action {
-                                self.engine.register_send_failure(query_id, peer);
-                                self.engine.register_response_failure(query_id, peer);
-                            }
+                            let query_id = action.query_id();
+                            self.engine.register_send_failure(query_id, peer);
+                            self.engine.register_response_failure(query_id, peer);
                         }
                     }
                 }
@@ -889,6 +888,8 @@ impl Kademlia {
                 let key = record.key.clone();
                 let message: Bytes = KademliaMessage::put_value(record);
 
+                let mut failed_peers = Vec::new();
+
                 for peer in &peers {
                     if let Err(error) = self.open_substream_or_dial(
                         peer.peer,
@@ -903,6 +904,7 @@ impl Kademlia {
                             ?error,
                             "failed to put record to peer",
                         );
+                        failed_peers.push(peer.peer);
                     }
                 }
 
@@ -912,6 +914,12 @@ impl Kademlia {
                     peers.into_iter().map(|peer| peer.peer).collect(),
                     quorum,
                 );
+
+                // Peers that could be neither reached over an open connection nor dialed
+                // will never report back: fail them now so the query can conclude.
+                for peer in failed_peers {
+                    self.engine.register_send_failure(query, peer);
+                }
 
                 Ok(())
             }
@@ -943,6 +951,8 @@ impl Kademlia {
 
                 let message = KademliaMessage::add_provider(provided_key.clone(), provider);
 
+                let mut failed_peers = Vec::new();
+
                 for peer in &peers {
                     if let Err(error) = self.open_substream_or_dial(
                         peer.peer,
@@ -955,7 +965,8 @@ impl Kademlia {
                             ?provided_key,
                             ?error,
                             "failed to add provider record to peer",
-                        )
+                        );
+                        failed_peers.push(peer.peer);
                     }
                 }
 
@@ -965,6 +976,11 @@ impl Kademlia {
                     peers.into_iter().map(|peer| peer.peer).collect(),
                     quorum,
                 );
+
+                // See `PutRecordToFoundNodes` above.
+                for peer in failed_peers {
+                    self.engine.register_send_failure(query, peer);
+                }
 
                 Ok(())
             }
